@@ -46,7 +46,7 @@ def gen_case(rng, tier, avoid):
         elif r < 0.3:
             cfg['prior'] = {'kind': 'self', 'extra': rng.choice([0, 0, 7, 64])}     # a longer/identical earlier copy
         if rng.random() < 0.2:
-            cfg['path_kind'] = 'Path'
+            cfg['path_kind'] = rng.choice(['Path', 'Path', 'relative', 'relative_Path'])
         configs.append(cfg)
     if tier == 'thorough' and rng.random() < 1 / 2500.0:
         # directed: the documented default output chunk (2**32: two 4 GiB buffers are allocated and zeroed, 20-60 s)
